@@ -282,6 +282,80 @@ func saturate(limit int) sched.Spec {
 	return sp
 }
 
+// concurrentWaiter: a second goroutine is parked in Wait() while the submitting goroutine is parked
+// in Go on a full limiter. A slot that frees must go to the blocked Go (a wake-up that is consumed
+// by the waiter instead starves the submission for good). The group counter never reaches zero while
+// the waiter is registered (f2 stays inside until f3 is inside), so this is a legal use of the type.
+func concurrentWaiter(limit int) sched.Spec {
+	type stW struct {
+		started, f3in int64
+		done          []int64
+		inside        int64
+	}
+	sc := sched.Scenario{
+		Name:   fmt.Sprintf("limit%d/waiter-parked-while-go-blocks", limit),
+		NoRace: true,
+		Build: func(x *core.Exec) any {
+			n := limit + 1
+			st := &stW{done: make([]int64, n)}
+			l := goz.NewLimiter(limit)
+			body := func(i int) func() {
+				return func() {
+					if in := vatomic.AddInt64(&st.inside, 1); in > int64(limit) {
+						x.FailNow("limit-exceeded", fmt.Sprintf("%d submitted functions are inside their body at the same time, limit %d", in, limit))
+					}
+					switch {
+					case i == 0:
+						core.Pause()
+					case i < n-1:
+						core.WaitFor(func() bool { return st.f3in == 1 }) // stays inside until the last function got its slot
+					default:
+						vatomic.StoreInt64(&st.f3in, 1)
+					}
+					vatomic.AddInt64(&st.inside, -1)
+					vatomic.AddInt64(&st.done[i], 1)
+				}
+			}
+			x.Spawn("main", func(t *core.Thread) {
+				for i := 0; i < n; i++ {
+					i := i
+					t.Op("Go", i, func() any { l.Go(body(i)); return nil })
+					if x.Failed() {
+						return
+					}
+					if i == 1 {
+						// from here on function 1 keeps the group counter above zero until the last function is
+						// inside: the waiter registers on a counter that cannot touch zero before the end (an
+						// Add from zero while a Wait is returning would be the CALLER's misuse of a WaitGroup)
+						vatomic.StoreInt64(&st.started, 1)
+					}
+				}
+				t.Op("Wait", 0, func() any { l.Wait(); return nil })
+				for i := 0; i < n; i++ {
+					if d := vatomic.LoadInt64(&st.done[i]); d != 1 {
+						x.FailNow("wait-returned-early-or-task-lost", fmt.Sprintf("Wait() returned but function %d has completed %d times (want exactly 1)", i, d))
+						return
+					}
+				}
+			})
+			x.Spawn("waiter", func(t *core.Thread) {
+				core.WaitFor(func() bool { return st.started == 1 })
+				t.Op("Wait", 1, func() any { l.Wait(); return nil })
+			})
+			return st
+		},
+		Check: func(x *core.Exec, ctx any) *core.Failure {
+			for i, d := range ctx.(*stW).done {
+				if d != 1 {
+					return &core.Failure{Sig: "task-not-run-exactly-once", What: fmt.Sprintf("function %d ran %d times", i, d)}
+				}
+			}
+			return nil
+		},
+	}
+	return sched.Spec{Sc: sc, Quick: 2, Thorough: 3}
+}
+
 // twoLimiters: A and B are independent objects — functions submitted to one never occupy a slot
 // of, are never waited for by, and never release the other (state shared between limiters).
 func twoLimiters(limit int) sched.Spec {
@@ -547,6 +621,9 @@ func main() {
 	}
 	for _, lim := range []int{1, 2, 3, 4, 0, -1} {
 		specs = append(specs, saturate(lim))
+	}
+	for _, lim := range []int{2, 3} {
+		specs = append(specs, concurrentWaiter(lim))
 	}
 	for _, lim := range []int{1, 2} {
 		for _, v := range []string{"nil-task", "weird-panic", "logpanic-0", "logpanic-2"} {
